@@ -32,6 +32,10 @@ groups:
                                             i (a Reason, neither Reject nor Quarantine), q (Reason and Quarantine), h (header
                                             fields of its own), d (the later blocks reference the same check again);
                                             answered with `pipelineChecks`
+  N <p|c|m|f>+                              (reply only) the routing blocks (nested pipelines sharing the message's metadata)
+                                            between the evaluating pipeline and the storage, outermost first: p no checks,
+                                            c / m checks with nothing to say, f a check of the block flags the message;
+                                            answered through `routed`
   t <dom> <lower> <publicSuffix(lower)> <etld1(lower)|!>     library answers for a domain
   c <dom> <class>                           strings.EqualFold classes (same class ⇔ EqualFold)
   o <dom> <org>                             the KNOWN organizational domain (hand-written list; `laws` only)
@@ -58,6 +62,7 @@ structure Tabs where
   hdr : List FieldParse := []      -- reversed
   res : List AuthRes := []         -- reversed
   blocks : Option (List (Option Nat)) := none
+  hops : List Bool := []
   wraps : Option (List (Option (Stage × Bool × Bool × Bool × Bool))) := none
   arr : List (Str × Nat) := []
 
@@ -136,6 +141,11 @@ def parse (gs : List (List String)) : Option Tabs :=
     | "W" :: ws => do
       if ws.isEmpty then none else
       pure { T with wraps := some (← ws.mapM wrap?) }
+    | "N" :: hs => do
+      if hs.isEmpty then none else
+      let hop (h : String) : Option Bool :=
+        if h == "p" || h == "c" || h == "m" then some false else if h == "f" then some true else none
+      pure { T with hops := ← hs.mapM hop }
     | ["A", d, st] => do pure { T with arr := T.arr ++ [(← dom? d, ← st.toNat?)] }
     | ["t", d, l, p, e] => do
       let e ← if e == "!" then some none else (dom? e).map some
@@ -262,7 +272,9 @@ def handle (toks : List String) : String :=
           let r := verify P T.dnsFn T.hdr T.res rnd
           if op == "verify" then
             s!"{showVal r.1.val} {showReason r.1.reason} {b01 r.1.spfAligned} {b01 r.1.dkimAligned} {showPol r.2}"
-          else match T.blocks, T.wraps with
+          else
+          let showReply := fun (x : Reply) => showReply (routed T.hops x)
+          match T.blocks, T.wraps with
             | none, none => showReply (applyResults (q == "1") r)
             | none, some [some (st, reason, wq, h, d)] =>
               -- one global check, every answer at once
